@@ -2,6 +2,7 @@
 
 from abc import ABC
 import logging
+import reprlib
 from typing import Any, Callable, Dict, Iterable, List, Optional, Tuple, Type, TypeVar
 
 from . import (
@@ -20,7 +21,9 @@ def _safe_repr(obj: Any) -> str:
     """:func:`repr` for messages about cycles: the ``__repr__`` of a user class that prints its fields recurses on the
     very cycle that is being reported"""
     try:
-        return repr(obj)
+        # not repr(): it stops at cycles but prints a shared sub-object once per reference, so describing a structure that
+        # holds `x = [x, x]` nested n times costs 2**n and the cycle error never arrives
+        return reprlib.repr(obj)
     except RecursionError:
         return f"<{type(obj).__name__} object at {id(obj):#x}>"
 
